@@ -63,7 +63,18 @@ Proof.
   destruct H as [H|H]; rewrite H; cbn [negb]; rewrite ?andb_false_r; reflexivity.
 Qed.
 
-Global Arguments find_member : simpl nomatch.
+
+Lemma if_none_none (b : bool) (x : Z + perr) :
+  (if b then match x with inl _ => @None rfields | inr _ => None end else None) = None.
+Proof. destruct b; [destruct x|]; reflexivity. Qed.
+
+Lemma ver_rest_comma (b : bool) (x : Z + perr) pre params salt sum :
+  has_comma salt = true \/ has_comma sum = true ->
+  (if b then match x with
+             | inl v => recog_argon2_rest pre (if v =? 0 then 16 else v) params salt sum
+             | inr _ => None
+             end else None) = None.
+Proof. intros H. destruct b; [destruct x|]; try reflexivity. apply rest_comma. exact H. Qed.
 
 (* facts about the pieces from the relation with the fragments *)
 Ltac rel_facts HR :=
@@ -136,24 +147,19 @@ Proof.
   all: unfold unmarshal_tree; cbn [ti_prefix prefix ti_fields ti_numreq frags];
     rewrite (argon2_prefix_ok pre Hin); cbn [fi_embptr bind fi_index].
   all: try (rewrite rest_comma by (first [left; symmetry; assumption | right; symmetry; assumption])).
+  all: try (rewrite ver_rest_comma by (first [left; symmetry; assumption | right; symmetry; assumption])).
   all: repeat match goal with
               | H : true = has_comma ?q |- context [has_comma ?q] => rewrite <- H
               | H : false = has_comma ?q |- context [has_comma ?q] => rewrite <- H
               end.
-  all: cbn [negb]; rewrite ?andb_false_r, ?andb_true_r.
+  all: cbn [negb]; rewrite ?andb_false_r, ?andb_true_r; cbn [andb].
   all: unfold recog_argon2_rest.
   all: repeat match goal with
               | H : false = has_comma ?q |- context [split_on comma [] ?q] =>
                 rewrite (split_on_plain comma q (eq_sym H))
               end.
-  all: cbv iota beta; cbn [andb].
-  all: try match goal with
-           | H : map snd ?g = split_on comma [] ?q |- context [split_on comma [] ?q] =>
-             rewrite <- H; destruct g as [|[pa ta] [|[pb tb] [|[pc tc] [|vd g]]]]; cbn [map snd]
-           end.
-  all: rewrite ?member_num_eq; unfold member_num', member_by, k_v; rewrite ?in_alpha_fi.
-  Time all: crunchA.
-  all: try reflexivity.
+  all: cbv iota beta; rewrite ?if_none_none.
+  Time all: try match goal with |- _ = 2%nat => idtac "bad"; time (solve [crunchA; reflexivity]) end.
   Show.
 Abort.
 End A.
